@@ -22,12 +22,22 @@ REQUIRED = {"C01": ["steps_compared", "instr_cases", "prog_cases", "faults_compa
 
 def plan(prop, tier, seed):
     if tier == "quick":
-        return [{"kind": "instr", "n": 2600, "shard": i} for i in range(12)] + [{"kind": "prog", "n": 260, "shard": i} for i in range(4)] + [{"kind": "directed", "shard": 0}]
-    return [{"kind": "instr", "n": 150000, "shard": i} for i in range(32)] + [{"kind": "prog", "n": 12000, "shard": i} for i in range(16)] + [{"kind": "directed", "shard": 0}]
+        return [{"kind": "instr", "n": 2600, "shard": i} for i in range(12)] + [{"kind": "prog", "n": 260, "shard": i} for i in range(4)] + [{"kind": "directed", "shard": 0}, {"kind": "long", "shard": 0}]
+    return [{"kind": "instr", "n": 150000, "shard": i} for i in range(32)] + [{"kind": "prog", "n": 12000, "shard": i} for i in range(16)] + [{"kind": "directed", "shard": 0}, {"kind": "long", "shard": 0}]
 
 
 def run_shard(spec, res):
     rng = rng_for("C01", spec["tier"], spec["seed"], spec["kind"], spec["shard"])
+    if spec["kind"] == "long":
+        # one LONG run (instruction and cycle counters, cache hit and access counters pass 2^16) in lockstep
+        from .pipe import long_case
+
+        c = long_case(True, 6000 if spec["tier"] == "quick" else 9000)
+        case = {"kind": "prog", "prog": c["prog"], "regs": c["regs"], "mem": c["mem"], "max_steps": 400000, "via": "direct", "blind": True, "dcache": c["dcache"], "icache": c["icache"]}
+        guarded(run_case, "C01", case, res)
+        res.evaluations += 1
+        res.count("long_runs")
+        return
     if spec["kind"] == "directed":
         for case in directed_cases():
             guarded(run_case, "C01", case, res)
